@@ -24,6 +24,8 @@ def run(ctx):
     os.replace(exe + ".tmp", exe)
     env = {"ASAN_OPTIONS": "detect_leaks=0"}
     ctx.pipe([exe, "gen", "12" if ctx.tier == "quick" else "1"], "gridgen", env=env, label="parametric-constructor")
+    hs = ctx.build_harness("h_solver")
+    ctx.pipe([hs, "levels", "300" if ctx.tier == "quick" else "1100"], "options", label="chooseNumberOfLevels-all-sizes")
     ctx.pipe([exe, "files", "12" if ctx.tier == "quick" else "120"], "gridgen", env=env, label="file-round-trip")
     ctx.assumptions += ["values are exact rationals in the model; the C++ computes them in double (compared within 2^-40*Rmax)",
                         "iostream formatting is exercised (round trip), not modelled",
